@@ -685,7 +685,7 @@ def check(rep: Report, tier: str, seed: int) -> None:
     rep.extra["dense_worst_error_over_tolerance"] = worst
     rep.extra["t_dense_s"] = round(time.time() - t0, 1)
 
-    if rep.broken and not rep.failing:
+    if rep.broken and not rep.unknown_failing():
         search(rep, seed, 12 if quick else 80)
 
 
